@@ -99,15 +99,17 @@ void vrt_add_class(const char *sub, int cls)
 
 int vrt_register(const void *base, size_t len, int kind)
 {
+	pthread_mutex_lock(&g_lock);
 	pthread_mutex_lock(&g_reglock);
 	int n = atomic_load(&g_nobj);
-	if (n >= MAXOBJ) { pthread_mutex_unlock(&g_reglock); return -1; }
+	if (n >= MAXOBJ) { pthread_mutex_unlock(&g_reglock); pthread_mutex_unlock(&g_lock); return -1; }
 	g_obj[n].base = (uintptr_t)base; g_obj[n].len = len; g_obj[n].kind = kind;
 	atomic_store(&g_nobj, n + 1);
 	pthread_mutex_unlock(&g_reglock);
+	pthread_mutex_unlock(&g_lock);
 	return n;
 }
-void vrt_unregister_all(void) { atomic_store(&g_nobj, 0); }
+void vrt_unregister_all(void) { pthread_mutex_lock(&g_lock); atomic_store(&g_nobj, 0); pthread_mutex_unlock(&g_lock); }
 
 static int find_obj(const volatile void *addr, long *off)
 {
@@ -171,13 +173,21 @@ static void rt_pre(struct dispatch_verif_site_s *s, const volatile void *addr)
 	if (!addr) return; /* fence / giveup: handled in post */
 	if (c <= 0) return;
 	long off = 0;
-	int o = find_obj(addr, &off);
+	int o = find_obj(addr, &off);      /* only a hint for the steering callback */
 	t_in_rt = 1;
 	perturb();
 	if (g_steer) g_steer(s, addr, o);
 	t_in_rt = 0;
-	if ((o < 0 && c < VRT_CLASS_ANY) || atomic_load(&g_paused)) return;   /* classes >= VRT_CLASS_ANY: any address */
+	if (atomic_load(&g_paused)) return;
+	/* The registry lookup that decides whether (and as what) this access is recorded is made UNDER the
+	 * lock, after any perturbation sleep: registrations change under the same lock, so an access can
+	 * never be attributed to an object registered later at the same index. */
 	pthread_mutex_lock(&g_lock);
+	o = find_obj(addr, &off);
+	if ((o < 0 && c < VRT_CLASS_ANY) || atomic_load(&g_paused)) {
+		pthread_mutex_unlock(&g_lock);
+		return;
+	}
 	t_held = 1; t_hobj = o; t_hoff = off; t_hcls = c;
 }
 
@@ -237,6 +247,8 @@ static void rt_probe(const char *kind, const volatile void *obj, long a, long b)
 	perturb();
 	t_in_rt = 0;
 	pthread_mutex_lock(&g_lock);
+	o = obj ? find_obj(obj, &off) : -1;      /* decided under the lock, see rt_pre */
+	if ((g_probe_filter && o < 0) || atomic_load(&g_paused)) { pthread_mutex_unlock(&g_lock); return; }
 	vrt_rec_t *r = newrec();
 	if (r) { r->kind = VRT_PROBE; r->name = kind; r->addr = obj; r->obj = o; r->off = off; r->a = a; r->b = b; }
 	t_last_load_addr = NULL;
